@@ -180,7 +180,11 @@ func New(stack *node.Node, config *Config) (*Kardiachain, error) {
 	// the height in its log and only then applies the block, so the block above the loaded
 	// state may be stored but not applied. Consensus cannot catch up on it by itself: its log
 	// refuses to replay a height whose end it has already recorded.
-	if meta := bOper.LoadBlockMeta(state.LastBlockHeight + 1); meta != nil {
+	next := state.LastBlockHeight + 1
+	if state.LastBlockHeight == 0 {
+		next = state.InitialHeight
+	}
+	if meta := bOper.LoadBlockMeta(next); meta != nil {
 		blockExec.SetEventBus(eventBus)
 		block := bOper.LoadBlock(meta.Header.Height)
 		if bOper.Height() < block.Height() {
